@@ -21,6 +21,7 @@ worker() {
     i=$((i+1)); [ $(( (i-1) % W )) -eq $((k-1)) ] || continue
     n=$(basename $d); p=${n%%-*}
     c=$(python3 -c "import json,re; m=json.load(open('$d/meta.json')); r=re.search(r'C\d\d', m['detected_by']); print(r.group(0) if r else '$p')")
+    if grep -q '"detected_by": "NOT DETECTED' $d/meta.json; then echo "$n not claimed (see meta.json)"; continue; fi
     git -C $S/repo-$k checkout -q -- . ; git -C $S/repo-$k apply "$d/patch.diff" || { echo "$n: patch does not apply"; continue; }
     (cd $S/h-$k && cargo build --offline --profile verif --quiet 2>/dev/null) || { echo "$n: harness does not build"; continue; }
     out=$($S/target-$k/verif/pbt run $c --tier quick --seed $SEED --root $S/root-$k 2>/dev/null); rc=$?
